@@ -342,7 +342,7 @@ Definition days_in_month (y m : Z) : Z :=
   else if ((m =? 4) || (m =? 6) || (m =? 9) || (m =? 11))%Z then 30%Z else 31%Z.
 Fixpoint pad9 (k : nat) (v : N) : N := match k with O => v | S k' => pad9 k' (v * 10) end.
 
-Definition parse_rfc3339 (s : list N) : res item :=
+Definition parse_core (s : list N) : option (Z * Z) :=          (* Unix seconds, nanoseconds *)
   match s with
   | y1 :: y2 :: y3 :: y4 :: 45 :: m1 :: m2 :: 45 :: d1 :: d2 :: 84 :: h1 :: h2 :: 58 :: i1 :: i2 :: 58 :: s1 :: s2 :: tl =>
       match num [y1; y2; y3; y4] 0, num [m1; m2] 0, num [d1; d2] 0, num [h1; h2] 0, num [i1; i2] 0, num [s1; s2] 0 with
@@ -359,13 +359,19 @@ Definition parse_rfc3339 (s : list N) : res item :=
           | Some ns =>
               if (1 <=? m) && (m <=? 12) && (1 <=? d) && (Z.of_N d <=? days_in_month (Z.of_N y) (Z.of_N m))%Z
                  && (h <=? 23) && (mi <=? 59) && (sc <=? 59)
-              then time_of_unix (days_from_civil (Z.of_N y) (Z.of_N m) (Z.of_N d) * 86400 + Z.of_N (h * 3600 + mi * 60 + sc))%Z (Z.of_N ns)
-              else Err EUnsupported
-          | None => Err EUnsupported
+              then Some ((days_from_civil (Z.of_N y) (Z.of_N m) (Z.of_N d) * 86400 + Z.of_N (h * 3600 + mi * 60 + sc))%Z, Z.of_N ns)
+              else None
+          | None => None
           end
-      | _, _, _, _, _, _ => Err EUnsupported
+      | _, _, _, _, _, _ => None
       end
-  | _ => Err EUnsupported
+  | _ => None
+  end.
+
+Definition parse_rfc3339 (s : list N) : res item :=
+  match parse_core s with
+  | Some (sec, ns) => time_of_unix sec ns
+  | None => Err EUnsupported
   end.
 
 (* DecodeFloat64 as decodeTime(1) calls it (bdRead = false): nil -> 0, optional tag skipping,
